@@ -694,6 +694,49 @@ let disc_item (k : int) (it : item) : item =
   | _ -> failwith "EnumDiscriminants generator failed"
 
 (* ----- casing ----- *)
+let n_of_int k : n = if k = 0 then N0 else Npos (pos_of_int k)
+let rec int_of_pos = function XH -> 1 | XO p -> 2 * int_of_pos p | XI p -> 2 * int_of_pos p + 1
+let int_of_n = function N0 -> 0 | Npos p -> int_of_pos p
+let cps_of_utf8 (s : string) : int list =
+  let n = String.length s in
+  let rec go i acc =
+    if i >= n then List.rev acc else
+    let b = Char.code s.[i] in
+    let cont k = Char.code s.[i + k] land 0x3f in
+    if b < 0x80 then go (i + 1) (b :: acc)
+    else if b < 0xe0 then go (i + 2) ((((b land 0x1f) lsl 6) lor cont 1) :: acc)
+    else if b < 0xf0 then go (i + 3) ((((b land 0x0f) lsl 12) lor (cont 1 lsl 6) lor cont 2) :: acc)
+    else go (i + 4) ((((b land 0x07) lsl 18) lor (cont 1 lsl 12) lor (cont 2 lsl 6) lor cont 3) :: acc) in
+  go 0 []
+let utf8_of_cps (l : int list) : string =
+  let b = Buffer.create 16 in
+  List.iter (fun c ->
+    if c < 0x80 then Buffer.add_char b (Char.chr c)
+    else if c < 0x800 then (Buffer.add_char b (Char.chr (0xc0 lor (c lsr 6))); Buffer.add_char b (Char.chr (0x80 lor (c land 0x3f))))
+    else if c < 0x10000 then (Buffer.add_char b (Char.chr (0xe0 lor (c lsr 12))); Buffer.add_char b (Char.chr (0x80 lor ((c lsr 6) land 0x3f)));
+                              Buffer.add_char b (Char.chr (0x80 lor (c land 0x3f))))
+    else (Buffer.add_char b (Char.chr (0xf0 lor (c lsr 18))); Buffer.add_char b (Char.chr (0x80 lor ((c lsr 12) land 0x3f)));
+          Buffer.add_char b (Char.chr (0x80 lor ((c lsr 6) land 0x3f))); Buffer.add_char b (Char.chr (0x80 lor (c land 0x3f))))) l;
+  Buffer.contents b
+(* cp,<lower><upper><alnum>,lo.lo,up.up;... *)
+let parse_table (t : string) : uentry list =
+  let cpl x = if x = "" then [] else List.map (fun y -> n_of_int (int_of_string y)) (String.split_on_char '.' x) in
+  List.map (fun e ->
+    match String.split_on_char ',' e with
+    | [cp; fl; lo; up] when String.length fl = 3 ->
+        { e_cp = n_of_int (int_of_string cp); e_lower = (fl.[0] = '1'); e_upper = (fl.[1] = '1'); e_alnum = (fl.[2] = '1'); e_lo = cpl lo; e_up = cpl up }
+    | _ -> failwith ("bad table entry " ^ e)) (List.filter (fun e -> e <> "") (String.split_on_char ';' t))
+let with_table (id : string) (tab : string) (f : ucd -> n list -> n list) : string =
+  let raw = bytes_of_atom id in
+  (* Ident::unraw: `r#type` names `type` *)
+  let raw = if String.length raw > 2 && String.sub raw 0 2 = "r#" then String.sub raw 2 (String.length raw - 2) else raw in
+  let cps = List.map n_of_int (cps_of_utf8 raw) in
+  let t = parse_table tab in
+  if not (sigma_free cps) then "outside-model-domain"
+  else if not (table_closed t cps) then "table-not-closed"
+  else if not (table_disjoint t) then "table-not-disjoint"
+  else hex_of_string (utf8_of_cps (List.map int_of_n (f (ucd_of_table t) cps)))
+
 let q_casing (args : string list) : string =
   match args with
   | ["style"; s] -> (match style_of_string (str_of_atom s) with Some _ -> "ok" | None -> "unknown")
@@ -701,7 +744,13 @@ let q_casing (args : string list) : string =
       let st = if st = "-" then None else (match style_of_string (str_of_atom st) with Some x -> Some x | None -> failwith "unknown style") in
       hex_of_str (convert_case st (str_of_atom id))
   | ["snakify"; id] -> hex_of_str (snakify (str_of_atom id))
-  (* non-ASCII identifiers: Model/Heck.v is stated over ASCII bytes; the harness compares the real code with a Rust reference *)
+  (* identifiers in all of Unicode: Model/HeckU.v instantiated with the character table the probe printed from Rust's `char`
+     methods (closed under the case mappings, Lowercase / Uppercase disjoint: both tested here); U+03A3 is outside the model's
+     domain (context-dependent final sigma); without a table the query is left to the Rust reference *)
+  | ["convertu"; st; id; tab] ->
+      let st = if st = "-" then None else (match style_of_string (str_of_atom st) with Some x -> Some x | None -> failwith "unknown style") in
+      with_table id tab (fun u cps -> uconvert_case u st cps)
+  | ["snakifyu"; id; tab] -> with_table id tab (fun u cps -> usnakify u cps)
   | "convertu" :: _ | "snakifyu" :: _ -> "outside-model-domain"
   | ["stylename"; s] ->
       (match style_of_string (str_of_atom s) with
